@@ -414,10 +414,29 @@ def classify_fail_kind(fc):
     return kinds
 
 
+def purge_harness_artifacts(wdir, engine):
+    """Kani writes ~40 MB of goto binaries PER HARNESS under target/kani/<triple>/debug/build/<crate>/<hash>/out and never removes those of
+    earlier builds: thousands of harnesses are tens of GB. They are of no use once the run (and its replays) is over; compiled
+    dependencies stay, so the next build is still incremental."""
+    import glob
+    for d in glob.glob(os.path.join(wdir, "target", "kani", "*", "debug", "build", engine + "*")) + \
+             glob.glob(os.path.join(wdir, "target", "kani", "*", "debug", "build", engine.replace("_", "-") + "*")):
+        shutil.rmtree(d, ignore_errors=True)
+
+
 def run_property(plan, tier, seed, t_start):
+    try:
+        return _run_property(plan, tier, seed, t_start)
+    finally:
+        if not os.environ.get("VERIF_KEEP_TARGET"):
+            purge_harness_artifacts(os.path.join(WORK, "%s-%s" % (plan.pid, tier)), plan.engine)
+
+
+def _run_property(plan, tier, seed, t_start):
     pid = plan.pid
     wdir = os.path.join(WORK, "%s-%s" % (pid, tier))
     os.makedirs(wdir, exist_ok=True)
+    purge_harness_artifacts(wdir, plan.engine)
     for f in ("kani.log", "replay.log"):
         p = os.path.join(wdir, f)
         if os.path.exists(p):
